@@ -242,10 +242,11 @@ for (st, pre), ops in CHAIN_CASES.items():
 for st, gk in [(0, 'pawn'), (0, 'king'), (0, 'castling'), (1, 'pspecial'), (5, 'knight')]:
     reg('c13_chain_eq_s%d_%s' % (st, gk), 'C13', T, 3600, 28, 'two chains (same start / other clocks / no castling rights / another start), one symbolic push of group %s and outcome each' % gk,
         'c13::chain_eq::<_, %d, %d>' % (st, KGCODE[gk]), 's13', 66)
-for st, pre, gk in [(1, 3, None), (5, 3, None), (5, 4, None), (0, 3, None), (0, 1, 'king'), (2, 0, 'rook')]:
-    reg('c17_walker_s%d_p%d_%s' % (st, pre, gk or 'concrete'), 'C17', T, 3600, 12,
-        'stated chain (start %d, prefix %d)%s; 6 symbolic walker operations' % (st, pre, ' extended by one symbolic accepted move of group ' + gk if gk else ''),
-        'c13::walker_steps::<_, %d, %d, %d, 4>' % (st, pre, KGCODE[gk] if gk else 0), 's13', 66, bounds='chains of at most 9 moves; at most 4 walker operations',
+for st, pre, gk, conc, nops in [(5, 3, None, 2, 2), (0, 3, None, 1, 2), (5, 4, None, 3, 2), (1, 3, None, 0, 3), (0, 1, 'king', 1, 2), (5, 3, None, 0, 4)]:
+    reg('c17_walker_s%d_p%d_%s_%d_%d' % (st, pre, gk or 'concrete', conc, nops), 'C17', T, 3600, 16 if nops < 4 else 28,
+        'stated chain (start %d, prefix %d)%s; %d concrete next() calls, then %d symbolic walker operations' % (st, pre, ' extended by one symbolic accepted move of group ' + gk if gk else '', conc, nops),
+        'c13::walker_steps::<_, %d, %d, %d, %d, %d>' % (st, pre, KGCODE[gk] if gk else 0, conc, nops), 's13', 66,
+        bounds='chains of at most 9 moves; at most %d symbolic walker operations after %d concrete ones' % (nops, conc),
         props=['C17', 'C04'], gen_k=(0, 0))
 reg('c14_outcome_filter_table', 'C14', QT, 300, 4, 'all outcomes x 3 filters (exhaustive)', 'c14::outcome_filter_table')
 reg('c14_chain_outcome_precedence', 'C14', QT, 900, 8, 'all board outcomes x every usize count x 3 filters', 'c14::chain_outcome_precedence', 's5', 66)
@@ -298,7 +299,7 @@ QUICK = {
     'C15': ['c15_leapers_exact', 'c15_between_exact', 'c15_bishop_exact'],
     'C16': ['c16_attackers_exact_w_by_white', 'c16_attackers_exact_w_by_black', 'c16_attackers_exact_b_by_white', 'c16_attackers_exact_b_by_black',
             'c16_check_queries_exact_w', 'c16_check_queries_exact_b'],
-    'C17': ['c17_walker_s5_p3_concrete', 'c17_walker_s0_p3_concrete'],
+    'C17': ['c17_walker_s5_p3_concrete_2_2', 'c17_walker_s0_p3_concrete_1_2'],
     'C18': ['c18_mirror_move_v_w_ep', 'c18_mirror_move_v_b_castling', 'c18_mirror_move_h_w_pspecial', 'c18_mirror_outcome_v_w', 'c18_mirror_outcome_h_b',
             'c06_semilegal_gen_pawns_all_w', 'c06_semilegal_gen_pawns_all_b'],
     'C19': ['c15_bishop_exact', 'c05_scratch_hash_def', 'c16_attackers_exact_w_by_black', 'c06_semilegal_validator_b_castling', 'c06_semilegal_validator_w_ep',
@@ -319,7 +320,7 @@ THOROUGH = {
             'c09_san_into_move_castling_?', 'c09_san_into_move_pawnshort_w', 'c09_san_into_move_simple_b', 'c10_uci_accept_*', 'c10_uci_parse_exact',
             'c10_uci_string_readers_w', 'c13_chain_step_s0_p0_*', 'c13_chain_step_s1_p1_king'],
     'C03': ['c03_make_unmake_*'],
-    'C04': ['c03_make_unmake_*', 'c04_nested_w_ep', 'c04_nested_b_castling', 'c04_nested_w_pspecial', 'c04_nested_b_king', 'c13_chain_step_s0_p1_other', 'c17_walker_s5_p3_concrete'],
+    'C04': ['c03_make_unmake_*', 'c04_nested_w_ep', 'c04_nested_b_castling', 'c04_nested_w_pspecial', 'c04_nested_b_king', 'c13_chain_step_s0_p1_other', 'c17_walker_s5_p3_concrete_2_2'],
     'C05': ['c05_hash_features', 'c05_scratch_hash_def', 'c05_hash_delta_*', 'c03_make_unmake_?_pspecial', 'c03_make_unmake_?_ep', 'c03_make_unmake_?_castling',
             'c11_validate_exact_w'],
     'C06': ['c06_wellformed_exact', 'c06_semilegal_validator_*', 'c06_semilegal_gen_*'],
